@@ -2,6 +2,8 @@
 and the quoted path contains a dot; the resolver never emits a dot segment."""
 from __future__ import annotations
 
+import ast
+
 from ..interp import alternatives, analyze, truth
 from ..strtpl import flatten
 from ..kinds import DEC, RAW, UNK
@@ -15,6 +17,12 @@ ENTRY = ("_url.encode_url", "_url.URL.build", "_url.URL.with_path", "_url.URL._m
 
 def is_norm_call(t):
     return t[0] == "call" and t[1][0] == "global" and t[1][2] in NORMALISERS
+
+
+def _base(t):
+    while t[0] == "mut":
+        t = t[1]
+    return t
 
 
 def em_norm(ctx: Ctx):
@@ -46,6 +54,30 @@ def em_norm(ctx: Ctx):
             ok, why = nd and ndd and e.method == "append", "segment != '.' and segment != '..'"
         ctx.ob(rule, fi.qual, f"{acc}.{e.method}({show(a)})", ok,
                "a segment is appended to the resolved path without being known to differ from '.' and '..'", where(fi, e.node), sample=why)
+    # a '..' takes back exactly one segment (RFC 3986 5.2.4 2C: "removing the last segment"): the removal is not repeated
+    # within one iteration of the segment loop - neither by a second removal on the same path nor by an inner loop around it
+    outer = {b[1] for _s, v, _n in r.returns for b in [_base(v)] if b[0] == "phi"}
+    for e in r.by_kind("mutate"):
+        if not ((e.method == "pop" and not e.args) or (e.method == "delitem" and e.args and e.args[0][0] == "const")):
+            continue
+        if _base(e.recv)[0] != "phi" or _base(e.recv)[2] != acc:
+            continue
+        ctx.instance(rule)
+        n_removed, t = 1, e.recv
+        while t[0] == "mut":
+            n_removed += t[2] in ("pop", "delitem")
+            t = t[1]
+        loops, p_ = 0, getattr(e.node, "_parent", None)
+        while p_ is not None and not isinstance(p_, (ast.FunctionDef, ast.Lambda)):
+            loops += isinstance(p_, (ast.For, ast.While, ast.ListComp, ast.GeneratorExp, ast.SetComp))
+            p_ = getattr(p_, "_parent", None)
+        # in the resolver itself the only loop around the removal is the segment loop; a helper analysed in place either holds that
+        # loop or is called from it (the list it changes is the loop-carried one)
+        ok = t[1] in outer and n_removed == 1 and (loops == 1 if p_ is fi.node else loops <= 1)
+        ctx.ob(rule, fi.qual, f"{acc}.{e.method}() per '..' segment", ok,
+               "one '..' segment can take back more than one segment of the resolved path (the removal is repeated within one "
+               "iteration of the segment loop): RFC 3986 5.2.4 removes exactly the last segment, so 'a//..' keeps 'a/'",
+               where(fi, e.node), sample="one removal per iteration of the segment loop")
     # normalize_path: keeps the root, splits on '/', re-joins the resolver's output
     fp = model.func("_path.normalize_path")
     rp = analyze(model, fp, merge=False)        # small function: keep every path apart (rootedness is a two-test condition)
